@@ -543,7 +543,7 @@ def _truncate_dead(stmts):
     return out
 
 
-def _jumps_to_returns(stmts, ret, probe=False):
+def _jumps_to_returns(stmts, ret, probe=False, as_raise=False):
     """every own `<ret> = E; InlineJump` pair of the block -> `return E`; with probe=True only tells whether all own jumps have that shape
     and <ret> is not read or written anywhere else in the block"""
     ok = True
@@ -559,7 +559,7 @@ def _jumps_to_returns(stmts, ret, probe=False):
         if isinstance(st, ast.Assign) and len(st.targets) == 1 and isinstance(st.targets[0], ast.Name) and st.targets[0].id == ret:
             if isinstance(nxt, InlineJump) and getattr(nxt, "ret", None) == ret:
                 if not probe:
-                    r = ast.copy_location(ast.Return(value=st.value), st)
+                    r = ast.copy_location(ast.Raise(exc=st.value, cause=None) if as_raise else ast.Return(value=st.value), st)
                     stmts[i:i + 2] = [r]
                     i += 1
                 else:
@@ -575,7 +575,7 @@ def _jumps_to_returns(stmts, ret, probe=False):
             subs += [h.body for h in getattr(st, "handlers", []) or []]
         if subs:
             for sub in subs:
-                if not _jumps_to_returns(sub, ret, probe):
+                if not _jumps_to_returns(sub, ret, probe, as_raise):
                     return False
         elif probe and any(isinstance(x, ast.Name) and x.id == ret for x in ast.walk(st)):
             return False
@@ -628,6 +628,12 @@ def _flatten_blocks(stmts):
             if len(ep) == 1 and isinstance(ep[0], ast.Return) and isinstance(ep[0].value, ast.Name) and ep[0].value.id == st.ret \
                     and _ends_flow(st.body) and _jumps_to_returns(st.body, st.ret, probe=True):
                 _jumps_to_returns(st.body, st.ret)
+                out += st.prologue + st.body
+                continue
+            # the same for `raise self._helper(x)`: each `<ret> = E; jump` is `raise E`
+            if len(ep) == 1 and isinstance(ep[0], ast.Raise) and ep[0].cause is None and isinstance(ep[0].exc, ast.Name) and ep[0].exc.id == st.ret \
+                    and _ends_flow(st.body) and _jumps_to_returns(st.body, st.ret, probe=True):
+                _jumps_to_returns(st.body, st.ret, as_raise=True)
                 out += st.prologue + st.body
                 continue
             out.append(st)
@@ -1017,7 +1023,12 @@ def _propagate_bools(fdef):
                             if not isinstance(y, ast.Name):
                                 constlike.clear()
                                 break
-                    impure = any(isinstance(x, (ast.Subscript, ast.Call, ast.NamedExpr, ast.Await, ast.Yield)) or (isinstance(x, ast.Attribute) and id(x) not in constlike)
+                    # type(v) / isinstance(v, T) of a local that is not re-bound give the same answer wherever they are evaluated
+                    pure_calls = {id(x) for x in ast.walk(st.value) if isinstance(x, ast.Call) and isinstance(x.func, ast.Name) and x.func.id in ("type", "isinstance")
+                                  and not x.keywords and x.args and isinstance(x.args[0], ast.Name)
+                                  and all(isinstance(a_, ast.Name) or (isinstance(a_, ast.Tuple) and all(isinstance(e_, ast.Name) for e_ in a_.elts)) for a_ in x.args[1:])}
+                    impure = any((isinstance(x, (ast.Subscript, ast.NamedExpr, ast.Await, ast.Yield)) or (isinstance(x, ast.Call) and id(x) not in pure_calls))
+                                 or (isinstance(x, ast.Attribute) and id(x) not in constlike)
                                  for x in ast.walk(st.value))
                     later_stores = {x.id for r_ in rest for x in ast.walk(r_) if isinstance(x, ast.Name) and isinstance(x.ctx, (ast.Store, ast.Del))}
                     in_loop_risk = any(isinstance(x, (ast.For, ast.While)) for r_ in rest for x in ast.walk(r_)) and (operands & later_stores)
@@ -1495,6 +1506,9 @@ class Normalizer:
                 return out
         if isinstance(st, (ast.Assign, ast.AnnAssign, ast.AugAssign, ast.Expr, ast.Return)):
             return self._hoist(st, "value", modname, cname, stack, state)
+        if isinstance(st, ast.Raise) and st.exc is not None and st.cause is None:
+            # `raise self._error_for(e)`: the helper chooses the exception
+            return self._hoist(st, "exc", modname, cname, stack, state)
         return [st]
 
     def _hoist(self, st, field, modname, cname, stack, state):
